@@ -92,72 +92,113 @@ def isMissingVariable (node : Value) (vars : Option Vars) : Bool :=
 def lookupLast (k : String) (fs : List (String × Value)) : Option Value :=
   match fs.reverse.find? (fun p => p.1 == k) with | some p => some p.2 | none => none
 
+abbrev LitRec := Bool → TypeRef → Value → Option PyVal
+
+/-- `null_and_variable_coercer_wrapper` (applies to list / leaf / input-object coercers) -/
+def litWrapped (vars : Option Vars) (nnFlag : Bool) (node : Value) (body : Option PyVal) : Option PyVal :=
+  match node with
+  | .null => some .none
+  | .var x =>
+    match vars with
+    | none => none
+    | some vs =>
+      if vs.isEmpty then none else
+      match lookupKV x vs with
+      | none => none
+      | some .undef => none
+      | some v => if (match v with | .none => true | _ => false) && nnFlag then none else some v
+  | _ => body
+
+/-- `list_item_coercer` -/
+def litListItem (rec : LitRec) (vars : Option Vars) (t : TypeRef) (it : Value) : Option PyVal :=
+  if isMissingVariable it vars then (if t.isNonNull then none else some PyVal.none)
+  else rec false t it
+
+/-- all-or-nothing: any UNDEFINED makes the whole result UNDEFINED -/
+def allSome {α : Type} : List (Option α) → Option (List α)
+  | [] => some []
+  | none :: _ => none
+  | some a :: rest => (allSome rest).map (a :: ·)
+
+/-- body of the literal `list_coercer` -/
+def litList (rec : LitRec) (vars : Option Vars) (t : TypeRef) (node : Value) : Option PyVal :=
+  match node with
+  | .list items => (allSome (items.map (litListItem rec vars t))).map PyVal.list
+  | _ => (rec false t node).map fun v => PyVal.list [v]
+
+/-- `input_field_value_coercer` of the literal input-object coercer: `some none` = SKIP_FIELD, `none` = UNDEFINED -/
+def litField (rec : LitRec) (vars : Option Vars) (fs : List (String × Value)) (fd : ArgDef) : Option (Option (String × PyVal)) :=
+  let useDefault : Option (Option (String × PyVal)) :=
+    match fd.default with
+    | some d => (rec false fd.type d).map (fun v => some (fd.name, v))
+    | none => if fd.type.isNonNull then none else some none
+  match lookupLast fd.name fs with
+  | none => useDefault
+  | some vn =>
+    if isMissingVariable vn vars then useDefault
+    else (rec false fd.type vn).map (fun v => some (fd.name, v))
+
+/-- literal coercion at a named type (leaf / input object), inside the wrapper -/
+def litNamed (rec : LitRec) (S : Schema) (o : Oracle) (vars : Option Vars) (tn : String) (node : Value) : Option PyVal :=
+  match S.findType tn with
+  | some (.scalar _) =>
+    match scalarLit o tn node with
+    | .ok .undef => none
+    | .ok v => some v
+    | .error _ => none
+  | some (.enum _ vals) =>
+    match node with
+    | .enum x => if vals.contains x then some (.str x) else none
+    | _ => none
+  | some (.input _ fields) =>
+    match node with
+    | .obj fs => (allSome (fields.map (litField rec vars fs))).map fun rs => PyVal.dict (rs.filterMap id)
+    | _ => none
+  | _ => none
+
 /-- literal coercion; `none` = `UNDEFINED_VALUE` (invalid) -/
 def coerceLiteral : Nat → Schema → Oracle → Option Vars → Bool → TypeRef → Value → Option PyVal
   | 0, _, _, _, _, _, _ => none
   | n+1, S, o, vars, nnFlag, ty, node =>
-    -- `null_and_variable_coercer_wrapper` (applies to list / leaf / input-object coercers)
-    let wrapped (body : Unit → Option PyVal) : Option PyVal :=
-      match node with
-      | .null => some .none
-      | .var x =>
-        match vars with
-        | none => none
-        | some vs =>
-          if vs.isEmpty then none else
-          match lookupKV x vs with
-          | none => none
-          | some .undef => none
-          | some v => if (match v with | .none => true | _ => false) && nnFlag then none else some v
-      | _ => body ()
     match ty with
     | .nonNull t =>
       match node with
       | .null => none
       | _ => coerceLiteral n S o vars true t node
-    | .list t =>
-      wrapped fun _ =>
-        match node with
-        | .list items =>
-          let rs := items.map fun it =>
-            if isMissingVariable it vars then (if t.isNonNull then none else some PyVal.none)
-            else coerceLiteral n S o vars false t it
-          if rs.all Option.isSome then some (.list (rs.filterMap id)) else none
-        | _ =>
-          match coerceLiteral n S o vars false t node with
-          | none => none
-          | some v => some (.list [v])
-    | .named tn =>
-      match S.findType tn with
-      | some (.scalar _) =>
-        wrapped fun _ =>
-          match scalarLit o tn node with
-          | .ok .undef => none
-          | .ok v => some v
-          | .error _ => none
-      | some (.enum _ vals) =>
-        wrapped fun _ =>
-          match node with
-          | .enum x => if vals.contains x then some (.str x) else none
-          | _ => none
-      | some (.input _ fields) =>
-        wrapped fun _ =>
-          match node with
-          | .obj fs =>
-            let rs : List (Option (Option (String × PyVal))) := fields.map fun fd =>
-              -- some none = SKIP_FIELD, none = UNDEFINED
-              let useDefault : Unit → Option (Option (String × PyVal)) := fun _ =>
-                match fd.default with
-                | some d => (coerceLiteral n S o vars false fd.type d).map (fun v => some (fd.name, v))
-                | none => if fd.type.isNonNull then none else some none
-              match lookupLast fd.name fs with
-              | none => useDefault ()
-              | some vn =>
-                if isMissingVariable vn vars then useDefault ()
-                else (coerceLiteral n S o vars false fd.type vn).map (fun v => some (fd.name, v))
-            if rs.all Option.isSome then some (.dict ((rs.filterMap id).filterMap id)) else none
-          | _ => none
-      | _ => none
+    | .list t => litWrapped vars nnFlag node (litList (coerceLiteral n S o vars) vars t node)
+    | .named tn => litWrapped vars nnFlag node (litNamed (coerceLiteral n S o vars) S o vars tn node)
+
+abbrev InRec := TypeRef → PyVal → CoRes
+
+/-- one field of the JSON input-object coercer: `none` = field skipped -/
+def inField (rec : InRec) (lit : TypeRef → Value → Option PyVal) (kvs : List (String × PyVal)) (fd : ArgDef) : Option (String × CoRes) :=
+  match lookupKV fd.name kvs with
+  | none =>
+    match fd.default with
+    | some d => some (fd.name, match lit fd.type d with | some dv => CoRes.ok dv | none => CoRes.ok .undef)
+    | none => if fd.type.isNonNull then some (fd.name, .err "missing-required-field") else none
+  | some fv => some (fd.name, rec fd.type fv)
+
+def inNamed (rec : InRec) (lit : TypeRef → Value → Option PyVal) (S : Schema) (o : Oracle) (tn : String) (v : PyVal) : CoRes :=
+  match S.findType tn with
+  | some (.scalar _) =>
+    match scalarIn o tn v with
+    | .ok .undef => .err "scalar"
+    | .ok r => .ok r
+    | .error _ => .err "scalar"
+  | some (.enum _ vals) =>
+    match v with
+    | .str s => if vals.contains s then .ok (.str s) else .err "enum"
+    | _ => .err "enum"
+  | some (.input _ fields) =>
+    match v with
+    | .dict kvs =>
+      let present := (fields.map (inField rec lit kvs)).filterMap id
+      let unknown := kvs.filterMap fun kv =>
+        if fields.any (fun fd => fd.name == kv.1) then none else some "unknown-field"
+      CoRes.mk' (.dict (present.map fun p => (p.1, p.2.value))) (present.flatMap (·.2.errors) ++ unknown)
+    | _ => .err "not-an-object"
+  | _ => .err "not-an-input-type"
 
 /-- JSON (variable) value coercion -/
 def coerceInput : Nat → Schema → Oracle → TypeRef → PyVal → CoRes
@@ -174,42 +215,12 @@ def coerceInput : Nat → Schema → Oracle → TypeRef → PyVal → CoRes
       | .list xs =>
         -- values are only kept while no error has been seen; since the value is zeroed as soon as
         -- there is an error, that bookkeeping is unobservable: value = all item values
-        let rs := xs.map (coerceInput n S o t)
-        CoRes.mk' (.list (rs.map (·.value))) (rs.flatMap (·.errors))
-      | _ =>
-        let r := coerceInput n S o t v
-        CoRes.mk' (.list [r.value]) r.errors
+        CoRes.mk' (.list ((xs.map (coerceInput n S o t)).map (·.value))) ((xs.map (coerceInput n S o t)).flatMap (·.errors))
+      | _ => CoRes.mk' (.list [(coerceInput n S o t v).value]) (coerceInput n S o t v).errors
     | .named tn =>
       match v with
       | .none => .ok .none
-      | _ =>
-      match S.findType tn with
-      | some (.scalar _) =>
-        match scalarIn o tn v with
-        | .ok .undef => .err "scalar"
-        | .ok r => .ok r
-        | .error _ => .err "scalar"
-      | some (.enum _ vals) =>
-        match v with
-        | .str s => if vals.contains s then .ok (.str s) else .err "enum"
-        | _ => .err "enum"
-      | some (.input _ fields) =>
-        match v with
-        | .dict kvs =>
-          let rs : List (Option (String × CoRes)) := fields.map fun fd =>
-            match lookupKV fd.name kvs with
-            | none =>
-              match fd.default with
-              | some d => some (fd.name, match coerceLiteral n S o none false fd.type d with
-                                | some dv => CoRes.ok dv | none => CoRes.ok .undef)
-              | none => if fd.type.isNonNull then some (fd.name, .err "missing-required-field") else none
-            | some fv => some (fd.name, coerceInput n S o fd.type fv)
-          let present := rs.filterMap id
-          let unknown := kvs.filterMap fun kv =>
-            if fields.any (fun fd => fd.name == kv.1) then none else some "unknown-field"
-          CoRes.mk' (.dict (present.map fun p => (p.1, p.2.value))) (present.flatMap (·.2.errors) ++ unknown)
-        | _ => .err "not-an-object"
-      | _ => .err "not-an-input-type"
+      | _ => inNamed (coerceInput n S o) (coerceLiteral n S o none false) S o tn v
 
 /-- outcome of coercing one variable definition -/
 inductive VarOut where
